@@ -45,7 +45,7 @@ def dump_desc(desc, path, fmt):
     else:
         import yaml
         with open(path, "w", encoding="utf-8") as fh:
-            yaml.safe_dump(desc, fh, sort_keys=False, allow_unicode=True)
+            yaml.safe_dump(desc, fh, sort_keys=False)      # escapes (allow_unicode would write NEL / LS / PS raw, which YAML folds)
 
 
 def tool_create_main(desc, d, fmt="json") -> bytes:
